@@ -67,7 +67,10 @@ def import_repo():
 
 def import_repo_networking():
     import_repo()
-    import skepticoin.networking.local_peer  # noqa  (must precede manager: circular import)
+    import contextlib
+    import io
+    with contextlib.redirect_stdout(io.StringIO()):   # blockstore prints "Creating new block database" at import
+        import skepticoin.networking.local_peer  # noqa  (must precede manager: circular import)
     import skepticoin.networking.manager  # noqa
     import skepticoin.networking.remote_peer  # noqa
     import skepticoin.networking.messages  # noqa
